@@ -42,6 +42,8 @@ func runC06(p *core.Program, r *core.Report) {
 	r.NotDecided = []string{"linearisation of concurrent sends, at-most-once delivery, loss accounting", "behaviour at every fault point (peer closes before/between/in the middle of frames)"}
 	r.Rule("C06.guard", "conn/wr are used only with the send mutex held (or before the client is published)", 8)
 	r.Rule("C06.single-writer", "only send() writes to the buffered writer (whole frame in one loop); only Flush() flushes", 2)
+	r.Rule("C06.at-most-once", "what is handed to send() was encoded for this call: never a buffer kept in a field of the client (bytes left there from an earlier send would go out again)", 1)
+	r.Rule("C06.redial", "every call of Connect tries all configured servers: its dial loop ranges over the whole server list (not from a position remembered in the client, which after one round of failures leaves nothing to try)", 1)
 	r.Rule("C06.close-on-error", "after a failed send the caller closes the connection; Close forgets it; send reconnects; Connect replaces conn and writer together", 4)
 	r.Rule("C06.error-visible", "deferred recover in a function with a named error result assigns the error", 1)
 	r.Rule("C06.fifo", "queue mode: tail enqueue, head dequeue, one drain goroutine", 3)
@@ -152,6 +154,8 @@ func runC06(p *core.Program, r *core.Report) {
 
 	c06SingleWriter(p, r, t)
 	c06CloseOnError(p, r, t)
+	c06AtMostOnce(p, r, t)
+	c06Redial(p, r, t)
 	c06ErrorVisible(p, r)
 	c06FlushError(p, r)
 	c06Fifo(p, r)
@@ -833,4 +837,113 @@ func sameRecvClosure(p *core.Program, fi *core.FuncInfo, depth int) []*core.Func
 	}
 	walk(fi, 0)
 	return out
+}
+
+// c06AtMostOnce: every call of send() in the client's methods gets bytes that are local to the call
+// (the freshly encoded frame, or a local derived from it), not a slice stored in the client.
+func c06AtMostOnce(p *core.Program, r *core.Report, t *types.Named) {
+	for _, fi := range p.MethodsOf(t) {
+		if fi.Decl.Body == nil || fi.Obj.Name() == "send" {
+			continue
+		}
+		info := fi.Pkg.TypesInfo
+		rn := recvName(fi)
+		var probs []string
+		n := 0
+		ast.Inspect(fi.Decl.Body, func(m ast.Node) bool {
+			call, ok := m.(*ast.CallExpr)
+			if !ok || len(call.Args) != 1 {
+				return true
+			}
+			sel, ok := call.Fun.(*ast.SelectorExpr)
+			if !ok || sel.Sel.Name != "send" {
+				return true
+			}
+			if id, ok := ast.Unparen(sel.X).(*ast.Ident); !ok || id.Name != rn {
+				return true
+			}
+			n++
+			arg := expandLocals(info, fi.Decl.Body, call.Args[0])
+			if root := rootOf(arg); root != nil && root.Name == rn {
+				if _, isCall := ast.Unparen(arg).(*ast.CallExpr); !isCall {
+					probs = append(probs, fmt.Sprintf("send() at %s is handed `%s`, storage of the client that outlives the call", p.Pos(call.Pos()), stripSpaces(types.ExprString(call.Args[0]))))
+				}
+			}
+			return true
+		})
+		if n > 0 {
+			fileProbs(r, "C06.at-most-once", "net/oneway.OneWayTcpClient."+fi.Obj.Name(), p.Pos(fi.Decl.Pos()), probs, fmt.Sprintf("%d send() call(s), each on bytes encoded for that call", n))
+		}
+	}
+}
+
+// c06Redial: the loop of Connect that dials the servers covers the list from its first element on every
+// call: `for _, h := range this.Servers`, or a counter that starts at the constant 0 and runs to
+// len(this.Servers). A loop whose position is a field of the client (or that starts elsewhere) is
+// reported.
+func c06Redial(p *core.Program, r *core.Report, t *types.Named) {
+	for _, fi := range p.MethodsOf(t) {
+		if fi.Decl.Body == nil || fi.Obj.Name() != "Connect" {
+			continue
+		}
+		info := fi.Pkg.TypesInfo
+		rn := recvName(fi)
+		isServers := func(e ast.Expr) bool {
+			if id, isId := ast.Unparen(e).(*ast.Ident); isId && info.ObjectOf(id) != nil {
+				e = expandLocals(info, fi.Decl.Body, id) // servers := this.Servers
+			}
+			sel, ok := ast.Unparen(e).(*ast.SelectorExpr)
+			if !ok {
+				return false
+			}
+			_, isSlice := info.TypeOf(sel).Underlying().(*types.Slice)
+			id, ok := ast.Unparen(sel.X).(*ast.Ident)
+			return ok && id.Name == rn && isSlice && strings.Contains(strings.ToLower(sel.Sel.Name), "server")
+		}
+		mentionsServers := func(n ast.Node) bool {
+			found := false
+			ast.Inspect(n, func(m ast.Node) bool {
+				if e, ok := m.(ast.Expr); ok && isServers(e) {
+					found = true
+				}
+				return true
+			})
+			return found
+		}
+		var probs []string
+		loops := 0
+		ast.Inspect(fi.Decl.Body, func(n ast.Node) bool {
+			switch v := n.(type) {
+			case *ast.RangeStmt:
+				if isServers(v.X) {
+					loops++
+				}
+			case *ast.ForStmt:
+				if (v.Cond == nil || !mentionsServers(v.Cond)) && !mentionsServers(v.Body) {
+					return true
+				}
+				if v.Cond != nil && !mentionsServers(v.Cond) {
+					return true
+				}
+				loops++
+				init, ok := v.Init.(*ast.AssignStmt)
+				start := ""
+				if !ok || len(init.Lhs) != 1 || len(init.Rhs) != 1 || init.Tok != token.DEFINE {
+					start = "has no counter of its own starting at 0"
+				} else if k, isC := constIntOf(info, init.Rhs[0]); !isC || k != 0 {
+					start = "starts at `" + stripSpaces(types.ExprString(init.Rhs[0])) + "`, not at the first server"
+				}
+				if start != "" {
+					probs = append(probs, fmt.Sprintf("the dial loop at %s %s: servers before that position are never tried again, and once the position has run past the end nothing is", p.Pos(v.Pos()), start))
+				}
+			}
+			return true
+		})
+		c := "net/oneway.OneWayTcpClient.Connect"
+		if loops == 0 {
+			r.Undec("C06.redial", c, p.Pos(fi.Decl.Pos()), "no loop over the server list found")
+			continue
+		}
+		fileProbs(r, "C06.redial", c, p.Pos(fi.Decl.Pos()), probs, "the dial loop covers the whole server list on every call")
+	}
 }
